@@ -66,7 +66,7 @@ def itemMemberDups : Item → List String
   | .struct _ _ _ fs => dups (fs.map (·.rust))
   | .tagged _ _ _ _ vs => dups (vs.map (·.name))
   | .oneOf _ _ _ vs => dups (vs.map (·.name))
-  | .gqlEnum _ _ _ vs _ _ => dups vs
+  | .gqlEnum _ _ _ vs _ _ => dups (vs ++ ["Other"])   -- every generated enum also declares `Other(String)`
   | .defaults fns => dups (fns.map (·.1))
   | _ => []
 
